@@ -446,6 +446,14 @@ def h_pk_teddy(prop, case, facts, length, off, w, pad, timeout=2400, mem_gb=20):
     # loops: window copy w, oracle start loop length+1 ...
     unwind = max(length + 2, len(case.pats) + 1, case.maxlen + 1, 18)
     uws = pk_unwindset(case, facts)
+    # Teddy verification: one candidate bit per (window byte, non-empty bucket) at most - the pad
+    # byte shares no fingerprint with a pattern (checked below) - and a bucket holds few patterns
+    pad_lo, pad_hi = pad & 0xF, pad >> 4
+    for pt in case.pats:
+        for bt in pt[:max(1, f["teddy_bytes"])]:
+            assert not (bt & 0xF == pad_lo and bt >> 4 == pad_hi), "pad byte occurs in a fingerprint"
+    uws[("8verify64", 0)] = w * max(1, f["teddy_nonempty_buckets"]) + 1
+    uws[("13verify_bucket", 0)] = f["max_teddy_bucket"] + 1
     return Harness(name, case, body, unwind, schema, meta, timeout=timeout, mem_gb=mem_gb,
                    functions=F_TEDDY + F_RK, stubs=STUB_SIMD, unwindset=uws)
 
@@ -996,6 +1004,18 @@ def schedule(prop, tier, seed):
                 if quick and mkk == "ll" and nm not in ("basic", "long"):
                     continue
                 cases.append(PackedCase("%s%s_rk_%s" % (prop.lower(), mkk, nm), pats, mk=mkk, force="rk"))
+        # many patterns (>= 21: std's unstable sort stops being an insertion sort), mixed lengths,
+        # duplicates at several placements: the leftmost-longest order must keep supply order on ties
+        many = []
+        rng = random.Random(4242)
+        base = ["ab", "abc", "ba", "bab", "cc", "cab", "da", "dab", "abcd", "bb", "bca", "ad", "dd", "cda", "acb", "bd"]
+        many = list(base)
+        for d in ("abc", "ba", "dab", "cc", "bca", "ab", "cda", "abcd"):
+            many.insert(rng.randint(0, len(many)), d)
+        while len(many) < 32:
+            many.insert(rng.randint(0, len(many)), rng.choice(base))
+        if not quick or prop == "C06":
+            cases.append(PackedCase(prop.lower() + "ll_rk_many", many, mk="ll", force="rk"))
         # Teddy searchers: below their minimum length find_in falls back to Rabin-Karp
         cases.append(PackedCase(prop.lower() + "lf_t1_slow", ["a", "bc"], mk="lf", force="teddy128"))
         tcases = [PackedCase(prop.lower() + "lf_t1", ["a", "bc"], mk="lf", force="teddy128"),
@@ -1021,6 +1041,9 @@ def schedule(prop, tier, seed):
                         hs.append(h_pk_teddy(prop, c, facts, ln, off, w, 0x5a))
                     continue
                 n = 6 if quick else 8
+                if "many" in c.name:
+                    hs.append(h_pk_find(prop, c, facts, n=5, timeout=2400))
+                    continue
                 hs.append(h_pk_find(prop, c, facts, n=n))
                 if not quick or "basic" in c.name or "long" in c.name:
                     hs.append(h_pk_iter2(prop, c, facts, n=5 if quick else 6))
@@ -1064,7 +1087,7 @@ def schedule(prop, tier, seed):
             hs = []
             for c in cases:
                 if "split" not in c.name:
-                    hs.append(h_replace_bytes(prop, c, facts, "dfa", n=2 if quick else 3))
+                    hs.append(h_replace_bytes(prop, c, facts, "dfa", n=int(__import__("os").environ.get("VERIF_C12N", "2")) if quick else 3))
                 if "split" in c.name or "empty" in c.name:
                     hs.append(h_replace_str(prop, c, facts, "dfa", n=2 if quick else 3))
             return hs
